@@ -130,6 +130,7 @@ func runC20(cfg *runCfg) error {
 				}
 				continue
 			}
+			fed.Disturb(q.Text)
 			plans, class, note := planWatch(fed, q.Text, 2*time.Second)
 			if class == "hang" {
 				stop = true
